@@ -257,6 +257,8 @@ Proof.
   - split; intros name; reflexivity.
   - reflexivity.
   - split; [reflexivity | constructor].
+  - constructor.
+  - intros name x H. vm_compute in H. discriminate.
   - exists 10%N, [SLet vI [] (XBin RAdd (XVar vI) (XNum n1))], [TSymbol vI; TEquals; TSymbol vI; TPlus; TNumber n1], [TSymbol vI; TEquals; TSymbol vI; TPlus; TNumber n1].
     repeat split; try reflexivity.
     apply LR_last.
@@ -325,6 +327,8 @@ Proof.
   - split; intros name; reflexivity.
   - reflexivity.
   - split; [reflexivity | constructor].
+  - constructor.
+  - intros name x H. vm_compute in H. discriminate.
   - exists 10%N, [SGosub 30%N; SPrint [PExpr (XVar vI); PSemi]], [TGosub; TNumber n30; TColon; TPrint; TSymbol vI; TSemicolon],
       [TGosub; TNumber n30; TColon; TPrint; TSymbol vI; TSemicolon].
     split; [reflexivity|]. split; [vm_compute; reflexivity|]. split; [reflexivity|]. split; [reflexivity|].
@@ -337,6 +341,73 @@ Proof.
   destruct (rrun 8 ex2_p 40 (0,0) (r_init 0)) as [pc st'|st'|er l st'|] eqn:E; try (vm_compute in E; discriminate).
   exists st'. split; [reflexivity|].
   assert (Ho : r_out st' = [bs "1"]).
+  { vm_compute in E. inversion E. reflexivity. }
+  split; [exact Ho|]. unfold after_step in H.
+  eapply reach_bind; [exact H|]. intros s' [A B]. apply reach_now. split; [exact A|]. rewrite B, Ho. reflexivity.
+Qed.
+
+(* non-vacuity of (4) for loops:  10 FOR I = 1 TO 5 STEP 2 / 20 PRINT I; / 30 NEXT I
+   — NEXT lands at the end of line 10, the run falls off the end of the program *)
+Definition ex3_lines := [HLine (bs "10 FOR I = 1 TO 5 STEP 2"); HLine (bs "20 PRINT I;"); HLine (bs "30 NEXT I")].
+Definition ex3_s : interp := set_state Running (snd (run_from_first_numbered_line (StoreProofs.run_state 50 init_interp ex3_lines))).
+Definition n2 : f64 := f64_of_Z 2.
+Definition n5 : f64 := f64_of_Z 5.
+Definition ex3_p : rprogram :=
+  [(10%N, [SFor vI (XNum n1) (XNum n5) (Some (XNum n2))]);
+   (20%N, [SPrint [PExpr (XVar vI); PSemi]]);
+   (30%N, [SNext vI])].
+
+Lemma R0_num x : Renders 0 (ENum x) [TNumber x].
+Proof. do 7 (apply R_incl; [lia|]). constructor. Qed.
+
+Lemma ex3_line10 : LRen 8 [SFor vI (XNum n1) (XNum n5) (Some (XNum n2))]
+                          (TFor :: TSymbol vI :: TEquals :: [TNumber n1] ++ TTo :: [TNumber n5] ++ [TStep; TNumber n2]).
+Proof.
+  apply LR_last.
+  apply (SR_for 8 [] vI (XNum n1) (ENum n1) [TNumber n1] (XNum n5) (ENum n5) [TNumber n5] (Some (XNum n2)) [TStep; TNumber n2]);
+    try reflexivity; try apply R0_num; try (cbn; lia).
+  right. exists (XNum n2), (ENum n2), [TNumber n2]. repeat split; try reflexivity; try apply R0_num; cbn; lia.
+Qed.
+
+Example ex3_sim : Sim 8 ex3_p [] (0, 0) (r_init 0) ex3_s.
+Proof.
+  apply (Sim_at 8 ex3_p [] 0 0 (r_init 0) ex3_s false).
+  - split; try reflexivity.
+    + repeat constructor.
+    + intros li n stmts H.
+      destruct li as [|[|[|li]]]; cbn in H; try (destruct li; discriminate); inversion H; subst; eexists; (split; [vm_compute; reflexivity|]).
+      * exact ex3_line10.
+      * apply LR_last.
+        apply (SR_print 8 [] [PExpr (XVar vI); PSemi] [MExpr (EVar vI); MSemi] [TSymbol vI; TSemicolon]); try reflexivity; try (cbn; lia).
+        apply (IR_expr [] (EVar vI) [TSymbol vI] [MSemi] [TSemicolon]); [apply R0_var | reflexivity|].
+        apply IR_semi. apply IR_nil. reflexivity.
+      * apply LR_last, SR_next.
+    + intros n H.
+      assert (E : st_toks ex3_s = [(30%N, [TNext; TSymbol vI]); (20%N, [TPrint; TSymbol vI; TSemicolon]);
+                                  (10%N, [TFor; TSymbol vI; TEquals; TNumber n1; TTo; TNumber n5; TStep; TNumber n2])]) by (vm_compute; reflexivity).
+      rewrite E in H. cbn [toks_get] in H. cbn [map fst ex3_p In].
+      destruct (N.eqb_spec 30 n); [subst; tauto|].
+      destruct (N.eqb_spec 20 n); [subst; tauto|]. destruct (N.eqb_spec 10 n); [subst; tauto|].
+      exfalso. apply H. reflexivity.
+  - reflexivity.
+  - split; intros name; reflexivity.
+  - reflexivity.
+  - split; [reflexivity | constructor].
+  - constructor.
+  - intros name x H. vm_compute in H. discriminate.
+  - exists 10%N, [SFor vI (XNum n1) (XNum n5) (Some (XNum n2))],
+      [TFor; TSymbol vI; TEquals; TNumber n1; TTo; TNumber n5; TStep; TNumber n2],
+      [TFor; TSymbol vI; TEquals; TNumber n1; TTo; TNumber n5; TStep; TNumber n2].
+    split; [reflexivity|]. split; [vm_compute; reflexivity|]. split; [reflexivity|]. split; [reflexivity|].
+    exact ex3_line10.
+Qed.
+Example ex3_runs : exists st', rrun 8 ex3_p 40 (0,0) (r_init 0) = Done st' /\ r_out st' = [bs "1"; bs "3"; bs "5"]
+  /\ reach (fun s => state s = Idle /\ outputs s = map OPrint [bs "1"; bs "3"; bs "5"]) ex3_s.
+Proof.
+  pose proof (fragment_simulation 8 ex3_p [] 40 (0,0) (r_init 0) ex3_s ex3_sim) as H.
+  destruct (rrun 8 ex3_p 40 (0,0) (r_init 0)) as [pc st'|st'|er l st'|] eqn:E; try (vm_compute in E; discriminate).
+  exists st'. split; [reflexivity|].
+  assert (Ho : r_out st' = [bs "1"; bs "3"; bs "5"]).
   { vm_compute in E. inversion E. reflexivity. }
   split; [exact Ho|]. unfold after_step in H.
   eapply reach_bind; [exact H|]. intros s' [A B]. apply reach_now. split; [exact A|]. rewrite B, Ho. reflexivity.
